@@ -15,6 +15,8 @@ import Golib.Proof.C20Numeral
 import Golib.Proof.C20Value
 import Golib.Proof.C20StrFast
 import Golib.Proof.C20Term
+import Golib.Proof.C20Trans
+import Golib.Proof.C20TransId
 
 namespace Golib.C20
 open Golib.Gen.C20
@@ -408,5 +410,115 @@ positive) is sorted and positive; a value across two period boundaries. -/
 example : Sorted 0 [⟨1800, 100, 3, 2⟩, ⟨86400, 300, 15, 3⟩] ∧
     (⟨1800, 100, 3, 2⟩ : Rule).OK ∧ countGenerate [⟨1800, 100, 3, 2⟩, ⟨86400, 300, 15, 3⟩] 7 90000 = some 12496 := by
   refine ⟨⟨by decide, by decide, trivial⟩, ⟨by decide, by decide, by decide, by decide, by decide, by decide⟩, by decide +kernel⟩
+
+/-! ## Regenerated tie (wave 9): `randz/count.go` and `hashz.BKDRHash` translated by `go2lean`
+
+`Golib/Gen/TransC20.lean` is regenerated from the tree under verification on every run.  The
+theorems below say that what the code says NOW is the hand-written model the theorems above are
+about.  Abstraction (`Proof/C20Trans.lean`): the generated `rule` has all five Go fields, the
+model's `Rule` the four that are read (`absRule`, `absRules`); a model-side `none` (Go panic) is
+`Res.panic` (`resOfOption`); the hash is `BitVec 32` in the generated code and `Nat` in the model;
+a string is its list of bytes.  `int` is the unbounded `Int` on both sides (the generated file's
+header lists the expressions).  `AddRule` is outside the subset (`sort.Slice`: GoSem gives no
+semantics to an unstable sort; `c20_count_any_order` covers every order it may leave). -/
+
+/-- TIE: the translated `getRand` equals the model's `getRand` for every hash word and every `max`
+(panic exactly where `uint64(max)` is 0 for a non-zero unbounded `max`, which no Go `int` is). -/
+theorem c20_trans_CountGenerator_getRand (r : GCount) (n : BitVec 32) (max : Int) :
+    Golib.Gen.Trans.C20.CountGenerator_getRand r n max = resOfOption (getRand n.toNat max) :=
+  trans_getRand r n max
+
+/-- TIE: the translated `Max` (a `range` loop with an early `return`) equals the model's
+`countMax` on every rule list and `diff`; panic exactly where the model panics (division by a zero
+`interval`); fuel `len(rules) + 1` suffices. -/
+theorem c20_trans_CountGenerator_Max (r : GCount) (diff : Int) :
+    Golib.Gen.Trans.C20.CountGenerator_Max r diff = resOfOption (countMax (absRules r) diff) :=
+  trans_max r diff
+
+/-- TIE: the translated `Min` equals the model's `countMin`. -/
+theorem c20_trans_CountGenerator_Min (r : GCount) (diff : Int) :
+    Golib.Gen.Trans.C20.CountGenerator_Min r diff = resOfOption (countMin (absRules r) diff) :=
+  trans_min r diff
+
+/-- TIE: the translated `hashz.BKDRHash` (on the bytes of a string) is the model's `bkdrHash`
+(a 31-bit value, so reading it back as a number loses nothing); no panic, fuel `len(s) + 1`. -/
+theorem c20_trans_BKDRHash (s : List (BitVec 8)) :
+    Golib.Gen.Trans.C20.BKDRHash s = .ok (BitVec.ofNat 32 (bkdrHash (s.map BitVec.toNat))) ∧
+    (BitVec.ofNat 32 (bkdrHash (s.map BitVec.toNat))).toNat = bkdrHash (s.map BitVec.toNat) :=
+  ⟨trans_bkdr s, trans_bkdr_toNat s⟩
+
+/-- TIE: the translated `Generate` (hash of the id, then the `range` loop calling `getRand` twice
+per rule) equals the model's `countGenerate` at the model's hash of the id's bytes. -/
+theorem c20_trans_CountGenerator_Generate (r : GCount) (id : List (BitVec 8)) (diff : Int) :
+    Golib.Gen.Trans.C20.CountGenerator_Generate r id diff
+      = resOfOption (countGenerate (absRules r) (bkdrHash (id.map BitVec.toNat)) diff) :=
+  trans_generate r id diff
+
+/-- The property clause on the GENERATED definitions: for a receiver whose rules are sorted by
+period with positive parameters, `Min`, `Generate`, `Max` return (no panic, no fuel) and
+`Min(diff) ≤ Generate(id, diff) ≤ Max(diff)`, `0 ≤ Generate`, for every id and `diff`. -/
+theorem c20_trans_count_bounds (r : GCount) (hs : Sorted 0 (absRules r))
+    (hok : ∀ v ∈ absRules r, v.OK) (id : List (BitVec 8)) (diff : Int) :
+    ∃ g mn mx, Golib.Gen.Trans.C20.CountGenerator_Generate r id diff = .ok g ∧
+      Golib.Gen.Trans.C20.CountGenerator_Min r diff = .ok mn ∧
+      Golib.Gen.Trans.C20.CountGenerator_Max r diff = .ok mx ∧ mn ≤ g ∧ g ≤ mx ∧ 0 ≤ g := by
+  obtain ⟨g, mn, mx, e1, e2, e3, b⟩ :=
+    c20_count_bounds (absRules r) hs hok (bkdrHash (id.map BitVec.toNat)) diff
+  exact ⟨g, mn, mx, by rw [trans_generate, e1]; rfl, by rw [trans_min, e2]; rfl,
+    by rw [trans_max, e3]; rfl, b⟩
+
+/-- The monotonicity clause on the GENERATED `Generate`: non-decreasing in `diff`. -/
+theorem c20_trans_count_mono (r : GCount) (hs : Sorted 0 (absRules r))
+    (hok : ∀ v ∈ absRules r, v.OK) (id : List (BitVec 8)) (d1 d2 : Int) (hd : d1 ≤ d2) :
+    ∃ g1 g2, Golib.Gen.Trans.C20.CountGenerator_Generate r id d1 = .ok g1 ∧
+      Golib.Gen.Trans.C20.CountGenerator_Generate r id d2 = .ok g2 ∧ g1 ≤ g2 := by
+  obtain ⟨g1, g2, e1, e2, h⟩ :=
+    c20_count_mono (absRules r) hs hok (bkdrHash (id.map BitVec.toNat)) d1 d2 hd
+  exact ⟨g1, g2, by rw [trans_generate, e1]; rfl, by rw [trans_generate, e2]; rfl, h⟩
+
+/-- Non-vacuity: two rules (the doc comment's shape), id "ab": the generated functions run, the
+value lies between `Min` and `Max`; a zero `interval` panics; `quickNum` is not read. -/
+example :
+    Golib.Gen.Trans.C20.CountGenerator_Generate ⟨[⟨60, 5, 10, 2, 0⟩, ⟨3600, 100, 60, 7, 9⟩]⟩ [0x61, 0x62] 200 = .ok 19 ∧
+    Golib.Gen.Trans.C20.CountGenerator_Min ⟨[⟨60, 5, 10, 2, 0⟩, ⟨3600, 100, 60, 7, 9⟩]⟩ 200 = .ok 9 ∧
+    Golib.Gen.Trans.C20.CountGenerator_Max ⟨[⟨60, 5, 10, 2, 0⟩, ⟨3600, 100, 60, 7, 9⟩]⟩ 200 = .ok 31 ∧
+    Golib.Gen.Trans.C20.CountGenerator_Max ⟨[⟨60, 5, 0, 2, 0⟩]⟩ 200 = .panic ∧
+    Golib.Gen.Trans.C20.BKDRHash [0x61, 0x62] = .ok 12805#32 ∧
+    Golib.Gen.Trans.C20.CountGenerator_getRand ⟨[]⟩ 12805#32 7 = .ok 3 ∧
+    Sorted 0 (absRules ⟨[⟨60, 5, 10, 2, 0⟩, ⟨3600, 100, 60, 7, 9⟩]⟩) := by
+  refine ⟨by decide +kernel, by decide +kernel, by decide +kernel, by decide +kernel,
+    by decide +kernel, by decide +kernel, ⟨by decide, by decide, trivial⟩⟩
+
+/-! ## Regenerated tie (wave 9), continued: `randz/id.go`
+
+The package-level array `decodeBase32Map` is explicit state of the translation (target option
+"globals"): a parameter of the translated `ParseBase32`, in-out for the translated `init`. -/
+
+/-- TIE (table): the translated first `init()` of `randz/id.go`, started on the zero array (what Go
+hands it), returns — no panic, fuel 257 per loop suffices — a 256-entry table that is the
+model's `decodeTable`, the table `c20_table` and all base-32 theorems are about. -/
+theorem c20_trans_init_table :
+    Golib.Gen.Trans.C20.init_0 (List.replicate 256 0#8) = .ok transTable ∧
+    decodeTable = some (transTable.map BitVec.toNat) ∧ transTable.length = 256 :=
+  trans_init_table
+
+/-- TIE: the translated `ParseBase32` at the table the translated `init` builds is the model's
+`parseBase32` (value modulo 2^64 as Go's `int64`, `(-1, ErrInvalidBase32)` at the first byte
+outside the alphabet, never a panic: `c20_base32_rejects`/`accepts` speak about this function).
+For an arbitrary table `tab` it is `parseBase32With tab` (`trans_parse`). -/
+theorem c20_trans_ParseBase32 (b : List (BitVec 8)) :
+    Golib.Gen.Trans.C20.ParseBase32 b transTable = resOfParse (parseBase32 (b.map BitVec.toNat)) := by
+  rw [trans_parse]
+  unfold parseBase32
+  rw [trans_init_table.2.1]
+
+/-- Non-vacuity: "1z" parses to 63, "1i" is rejected (`i` is not in the alphabet), entries of the
+table. -/
+example :
+    Golib.Gen.Trans.C20.ParseBase32 [0x31, 0x7a] transTable = .ok (63#64, GoSem.Err.nil) ∧
+    Golib.Gen.Trans.C20.ParseBase32 [0x31, 0x69] transTable
+      = .ok (BitVec.ofInt 64 (-1), GoSem.Err.mk "github.com/welllog/golib/randz.ErrInvalidBase32" []) ∧
+    transTable[0x7a]? = some 31#8 ∧ transTable[0x69]? = some 255#8 := by
+  decide +kernel
 
 end Golib.C20
